@@ -6,7 +6,7 @@ from contracts.common import *
 from contracts.l2_core import MODES
 from contracts.l3_fxp import LOWER, meta_clauses
 
-ROUTES = ('resize', 'resize_dtype', 'ctor_from_fxp', 'ctor_like', 'like_method', 'equal', 'call', 'set_val', 'setitem', 'fxp_like')
+ROUTES = ('resize', 'resize_dtype', 'resize_nint', 'ctor_from_fxp', 'ctor_like', 'ctor_like_kw', 'like_method', 'equal', 'call', 'set_val', 'setitem', 'fxp_like')
 
 
 def conv_formats(tier):
@@ -35,7 +35,7 @@ class Convert(Contract):
              'flag_overflow': ['C04', 'C05'], 'flag_underflow': ['C04', 'C05'], 'in_range': ['C02'], 'separate_state': ['C20'],
              'no_exception': ['C10'], 'meta_n_int': ['C02'], 'meta_limits': ['C02'], 'meta_status_keys': ['C02', 'C04'],
              'others_unchanged': ['C10'], 'governing_config': ['C10'],
-             'readback': ['C16', 'C10', 'C01', 'C08', 'C09'], 'vdtype_consistent': ['C16', 'C02', 'C08', 'C09'], 'store_dtype': ['C02', 'C10', 'C01'], 'alias_unchanged': ['C10', 'C20'], 'flag_inaccuracy': ['C04', 'C05']}
+             'readback': ['C16', 'C10', 'C01', 'C08', 'C09'], 'vdtype_consistent': ['C16', 'C02', 'C08', 'C09'], 'store_dtype': ['C02', 'C10', 'C01'], 'alias_unchanged': ['C10', 'C20'], 'template_unchanged': ['C10', 'C20'], 'flag_inaccuracy': ['C04', 'C05']}
 
     def configs(self, tier):
         fm = conv_formats(tier)
@@ -77,12 +77,15 @@ class Convert(Contract):
         other = {'rounding': 'ceil' if cfg['rule'] != 'ceil' else 'floor', 'overflow': 'wrap' if cfg['mode'] == 'saturate' else 'saturate'}
         shape = tuple(cfg['shape'])
         n = nelem(shape)
-        in_place = route in ('resize', 'resize_dtype')
+        in_place = route in ('resize', 'resize_dtype', 'resize_nint')
         src = make_fxp(P, s, w, f, codes=inp['c'], shape=shape, cfg=gov if in_place else other,
                        status={'inaccuracy': inp['isrc'], 'overflow': inp['osrc'], 'underflow': inp['usrc']}, vdtype=float if f > 0 else int)
         bsrc = dict(src.__dict__); v0 = list(elems(src.val)); st0 = dict(src.status); c0 = dict(src.config.__dict__)
         dst = None
-        if route in ('ctor_like', 'like_method', 'equal', 'call', 'set_val', 'fxp_like'):
+        if route == 'ctor_like_kw':
+            # the template carries OTHER modes; the modes are given as keywords next to like=: they govern the new object only
+            dst = make_fxp(P, ds, dw, df, codes=inp['old'][:n], shape=shape, cfg=other, vdtype=float, status=inp['st_dst'])
+        elif route in ('ctor_like', 'like_method', 'equal', 'call', 'set_val', 'fxp_like'):
             dst = make_fxp(P, ds, dw, df, codes=inp['old'][:n], shape=shape, cfg=gov, vdtype=float, status=inp['st_dst'])
         elif route == 'setitem':
             dst = make_fxp(P, ds, dw, df, codes=inp['old'], shape=(3,), cfg=gov, vdtype=float, status=inp['st_dst'])
@@ -94,10 +97,16 @@ class Convert(Contract):
             src.resize(ds, dw, df); z = src
         elif route == 'resize_dtype':
             src.resize(dtype=fmt_str(ds, dw, df)); z = src
+        elif route == 'resize_nint':
+            # the same target format given as signed + n_word + n_int (the fraction length follows arithmetically, with the NEW signedness)
+            src.resize(signed=ds, n_word=dw, n_int=dw - df - (1 if ds else 0)); z = src
         elif route == 'ctor_from_fxp':
             z = P.Fxp(src, ds, dw, df, rounding=cfg['rule'], overflow=cfg['mode'])
         elif route == 'ctor_like':
             z = P.Fxp(src, like=dst)
+        elif route == 'ctor_like_kw':
+            tcfg0 = dict(dst.config.__dict__)
+            z = P.Fxp(src, like=dst, rounding=cfg['rule'], overflow=cfg['mode'])
         elif route == 'like_method':
             z = src.like(dst)
         elif route == 'equal':
@@ -112,6 +121,7 @@ class Convert(Contract):
             z = P.functions.fxp_like(dst, src)
         o = obs_fxp(z)
         o['alias_unchanged'] = True if alias is None else same_elems(elems(alias.val), alias0)
+        o['template_unchanged'] = True if route != 'ctor_like_kw' else (dst.config.__dict__ == tcfg0 and dst.config.rounding == other['rounding'] and dst.config.overflow == other['overflow'])
         o['val_dtype_name'] = 'object' if z.val.dtype == object else str(z.val.dtype)
         o['getval'] = z.get_val()
         o['vdtype_is_int'] = z.vdtype is int
@@ -121,7 +131,7 @@ class Convert(Contract):
         else:
             o['source_unchanged'] = True
         sep = True
-        if route in ('ctor_from_fxp', 'ctor_like', 'like_method', 'fxp_like'):
+        if route in ('ctor_from_fxp', 'ctor_like', 'ctor_like_kw', 'like_method', 'fxp_like'):
             objs = [src] + ([dst] if dst is not None else [])
             for q in objs:
                 sep = sep and z is not q and z.config is not q.config and z.status is not q.status and not shares_buffer(z.val, q.val) \
@@ -138,7 +148,7 @@ class Convert(Contract):
         out = {'format': And(obs['signed'] == ds, obs['n_word'] == dw, obs['n_frac'] == df, obs['dtype'] == fmt_str(ds, dw, df)),
                'source_unchanged': obs['source_unchanged'], 'separate_state': obs['separate'],
                'governing_config': And(obs['rounding'] == cfg['rule'], obs['overflow'] == cfg['mode']),
-               'alias_unchanged': obs['alias_unchanged'],
+               'alias_unchanged': obs['alias_unchanged'], 'template_unchanged': obs['template_unchanged'],
                'store_dtype': obs['val_dtype_name'] == ('object' if dw >= 64 else ('int64' if ds else 'uint64'))}
         mc = meta_clauses(dict(signed=ds, n_word=dw, n_frac=df, rule=cfg['rule'], mode=cfg['mode']), obs)
         for k in ('meta_n_int', 'meta_limits', 'meta_status_keys'):
@@ -170,13 +180,13 @@ class Convert(Contract):
         any_hi = Or(*[R > hi for R in Rs]); any_lo = Or(*[R < lo for R in Rs])
         inexact = Or(*[Not(eq(scale2(cz, -df), scale2(c, -f))) for cz, c in pairs])
         d0 = inp['st_dst']
-        if route in ('resize', 'resize_dtype'):
+        if route in ('resize', 'resize_dtype', 'resize_nint'):
             base = {'overflow': B(inp['osrc']), 'underflow': B(inp['usrc']), 'inaccuracy': B(inp['isrc'])}     # in place: sticky
             prop = False
         elif route in ('equal', 'call', 'set_val', 'setitem', 'fxp_like'):
             base = {k: B(d0[k]) for k in ('overflow', 'underflow', 'inaccuracy')}                               # in place on dst (fxp_like: on a deep copy of it)
             prop = B(inp['isrc']) if route != 'equal' else False
-        elif route in ('ctor_from_fxp', 'ctor_like'):
+        elif route in ('ctor_from_fxp', 'ctor_like', 'ctor_like_kw'):
             base = {'overflow': False, 'underflow': False, 'inaccuracy': False}                                  # a fresh status record
             prop = B(inp['isrc'])
         else:
